@@ -157,17 +157,19 @@ def buildDelimited (fixed : Bool) (sep : Nat) (raw : Bytes) : Option Ext :=
            eEnd := (if fixed then eRows else eRows').map (fun r => r.getLastD 0 + 1),
            contiguous := true }
 
-/-- split a list of delimiter positions into per-line groups (each group ends with a newline position) -/
-def groupLines (d : Bytes) : List Nat → List Nat → List (List Nat)
-  | [], _ => []
-  | p :: ps, cur => if byteAt d p == 10 then (cur ++ [p]) :: groupLines d ps [] else groupLines d ps (cur ++ [p])
+/-- `RaggedArray(delimiters, n_fields)` with `n_fields` = the gaps between the newlines among the delimiter
+characters (`chunk[delimiters]`): the delimiter positions regrouped line by line (each group ends with a newline position;
+delimiters after the last newline are dropped) -/
+def splitGroups : List Nat → List Nat → List Nat → List (List Nat)
+  | c :: cs, p :: ps, cur => if c == 10 then (cur ++ [p]) :: splitGroups cs ps [] else splitGroups cs ps (cur ++ [p])
+  | _, _, _ => []
 
 /-- `SAMBuffer._get_buffer_extractor` (+ its `_modify_for_carriage_return`): the first 11 columns
 are fields, the record runs to one past the newline; when the first line ends in CR, a CR before
 each line's newline is stripped from the line's last column -/
 def buildSam (raw : Bytes) : Option Ext :=
   let delims := posFrom (fun b => b == 10 || b == 9) 0 raw
-  let groups := groupLines raw delims []
+  let groups := splitGroups (raw.filter (fun b => b == 10 || b == 9)) delims []
   match groups.getLast? with
   | none => none
   | some lastG =>
